@@ -64,14 +64,9 @@ impl Node {
 
     /// Creates a new blank node
     pub fn new_blank(index: u64) -> Self {
-        Self {
-            index,
-            hash: vec![0; 32],
-            length: 0,
-            parent: 0,
-            data: None,
-            blank: true,
-        }
+        // Through `new`, so that the fields that are not on the wire (parent, data) are what
+        // decoding the node's own encoding gives.
+        Self::new(index, vec![0; 32], 0)
     }
 }
 
